@@ -149,6 +149,11 @@ func (self *visitorUserNode) decode(bytes []byte, desc *proto.TypeDescriptor) ([
 		self.stk[self.sp].state = visitorUserNodeState{msgDesc: convDesc, fieldDesc: nil, lenPos: -1}
 		self.stk[self.sp].typ = objStkType
 	}
+	// NOTICE: sonic's native scanner (advance_dword) compares the literals true/false/null as a 4-byte word, and its
+	// bounds check wraps around when the whole document is shorter than that: give it the room it reads
+	if len(bytes) < 4 {
+		bytes = append(make([]byte, 0, 8), bytes...)
+	}
 	str := rt.Mem2Str(bytes)
 	if err := ast.Preorder(str, self, nil); err != nil {
 		return nil, err
